@@ -142,7 +142,8 @@ static int op_ge_add(void) {
     if (!p.infinity) secp256k1_gej_rescale(&pj, &za);
     if (!q.infinity) secp256k1_gej_rescale(&qj, &zb);
     secp256k1_gej_add_var(&r, &pj, &qj, NULL); out_gej(&r);
-    { secp256k1_fe rzr; secp256k1_gej_add_var(&r, &pj, &qj, &rzr); out_gej(&r); }
+    /* contract (VERIFY_CHECK in group_impl.h): rzr must be NULL when a is infinity */
+    { secp256k1_fe rzr; secp256k1_gej_add_var(&r, &pj, &qj, pj.infinity ? NULL : &rzr); out_gej(&r); }
     secp256k1_gej_add_ge_var(&r, &pj, &q, NULL); out_gej(&r);
     if (!q.infinity) { secp256k1_gej_add_ge(&r, &pj, &q); out_gej(&r); } else { secp256k1_gej_add_ge_var(&r, &pj, &q, NULL); out_gej(&r); }
     /* zinv variant: b given as (x*zb^2, y*zb^3) with bzinv = 1/zb */
